@@ -2,7 +2,7 @@
 
 import itertools
 
-from .. import gen as G, harness as H, model as M, spec as S
+from .. import gen as G, harness as H, loader, model as M, spec as S
 from . import _rows
 
 PROP = "C05"
@@ -58,7 +58,8 @@ def realise(lay, pattern):
     """Build the spec for a layout and a live(1)/dead(0) pattern."""
     import random
 
-    rng = random.Random(lay["seed"] + sum(b << i for i, b in enumerate(pattern)))
+    rng = random.Random(lay["seed"])  # numbers: independent of the pattern (so patterns differ only in deadness)
+    prng = random.Random(lay["seed"] + 7919 * (1 + sum(b << i for i, b in enumerate(pattern))))  # pattern-specific choices
     sgn = -1 if lay["neg"] else 1
     phases = {"run": 10.0, "nap": 200, "tx": 0.5} if lay["phases"] else {}
     comps, how = [], []
@@ -103,7 +104,7 @@ def realise(lay, pattern):
                 opts += ["element_inactive", "element_inactive"]
             if not opts:
                 opts = ["zero_source"]  # a shared source dies for all its inputs; the oracle reads the real pattern
-            h = rng.choice(opts)
+            h = prng.choice(opts)
             how.append(h)
             if h == "zero_source":
                 src_dead[sname] = "zero"
@@ -112,7 +113,7 @@ def realise(lay, pattern):
             else:
                 for c in comps:
                     if c["name"] == last_switchable:
-                        c["phase"] = ["ghost"] if rng.random() < 0.5 else [rng.choice(list(phases))]
+                        c["phase"] = ["ghost"] if prng.random() < 0.5 else [prng.choice(list(phases))]
         else:
             how.append("live")
     for c in comps:
@@ -120,7 +121,7 @@ def realise(lay, pattern):
             if src_dead[c["name"]] == "zero":
                 c["args"]["vo"] = 0.0
             else:
-                c["phase"] = ["ghost"] if rng.random() < 0.5 else [rng.choice(list(phases))]
+                c["phase"] = ["ghost"] if prng.random() < 0.5 else [prng.choice(list(phases))]
     k = lay["k"]
     rs = [G.sig(rng.uniform(0.01, 0.5)) for _ in range(k + rng.choice([0, 0, 1]))] if lay["list_rs"] else G.sig(
         rng.uniform(0.0, 0.3))
@@ -154,8 +155,12 @@ _state = {"queue": []}
 def gen(rng, i, tier):
     if not _state["queue"]:
         lay = layout(rng)
-        for pat in itertools.product([1, 0], repeat=lay["k"]):
-            _state["queue"].append({"layout": lay, "pattern": list(pat)})
+        pats = [list(p) for p in itertools.product([1, 0], repeat=lay["k"])]
+        for pat in pats:
+            case = {"layout": lay, "pattern": pat}
+            if rng.random() < 0.35:
+                case["from_pattern"] = rng.choice(pats)
+            _state["queue"].append(case)
     return _state["queue"].pop(0)
 
 
@@ -174,9 +179,32 @@ def directed():
 def run(ctx, case):
     lay, pat = case["layout"], case["pattern"]
     spec = realise(lay, pat)
-    st, sysobj = H.try_build(spec)
-    if st != "ok":
-        raise RuntimeError("layout rejected by the public API: %s" % H.exc_sig(sysobj))
+    prev = case.get("from_pattern")
+    if prev is not None and prev != pat:
+        # the system is first built and ANALYSED with another live/dead pattern, then edited into this one
+        ns = loader.load()
+        spec_a = realise(lay, prev)
+        st, sysobj = H.try_build(spec_a)
+        if st != "ok":
+            raise RuntimeError("layout rejected by the public API: %s" % H.exc_sig(sysobj))
+        with H.quiet():
+            H.solve(sysobj)
+            H.call(sysobj.rail_rep)
+        ca = S.comp_map(spec_a)
+        for c in spec["comps"]:
+            a = ca[c["name"]]
+            if a["args"] != c["args"]:
+                sysobj.change_comp(c["name"], comp=S.make_comp(ns, c), group=c.get("group", ""), rail=c.get("rail", ""))
+                if c.get("phase") is not None:
+                    sysobj.set_comp_phases(c["name"], c["phase"])
+            elif a.get("phase") != c.get("phase"):
+                sysobj.set_comp_phases(c["name"], c["phase"] if c.get("phase") is not None else [])
+        ctx.count("history", "pattern edited on an analysed system")
+    else:
+        st, sysobj = H.try_build(spec)
+        if st != "ok":
+            raise RuntimeError("layout rejected by the public API: %s" % H.exc_sig(sysobj))
+        ctx.count("history", "fresh")
     st, df = H.solve(sysobj)
     ctx.count("outcome", "returned" if st == "ok" else type(df).__name__)
     if st != "ok":
